@@ -144,6 +144,153 @@ def gram_of(vecs):
     return [[sum((a.conj() * b for a, b in zip(vi, vj)), Z0) for vj in vecs] for vi in vecs]
 
 
+def random_gram(rng, n, real):
+    """Gram matrix of n rational unit vectors with generic cross-overlaps: every pairwise
+    overlap non-zero, not all of modulus one (falls back to any draw after 60 attempts)."""
+    pool = INTERNAL_REAL if real else INTERNAL
+    gram = gram_of([rng.choice(pool) for _ in range(n)])
+    for _ in range(60):
+        offd = [gram[i][j] for i in range(n) for j in range(n) if i != j]
+        if all(x.re != 0 or x.im != 0 for x in offd) and (
+                not offd or any(x.re * x.re + x.im * x.im != 1 for x in offd)) and (
+                real or n < 3 or any(x.im != 0 for x in offd)):
+            break
+        gram = gram_of([rng.choice(pool) for _ in range(n)])
+    return gram
+
+
+def pick_queries(rng, d, psd, cutoff0):
+    act = [m for m in range(d) if m not in psd]
+    cutoff = cutoff0 - sum(psd.values())
+    queries = basis(len(act), cutoff)
+    margs = []
+    if act:
+        margs.append([rng.choice(act)])
+        if len(act) >= 2:
+            margs.append(sorted(rng.sample(act, 2)) if rng.random() < 0.7 else rng.sample(act, 2))
+    return act, cutoff, queries, margs
+
+
+LOSS_KINDS = ("uniform_all", "uniform_subset", "per_mode", "lossy_interferometer")
+POSITIONS = ("before", "between", "after")
+
+
+def make_seq_case(rng, cid, d, s, ov, loss_kind, position, real=False):
+    """A case generated as an INSTRUCTION SEQUENCE: interferometer, loss of the given kind placed
+    before / between / after post-selection steps that demand >= 1 photon, gates on the remaining
+    modes.  Model steps use the active numbering, the program the user's original labels."""
+    n = sum(s)
+    psd = {}
+    model, program = [], []
+    T = ident(d)
+    feats = set()
+
+    def active():
+        return [m for m in range(d) if m not in psd]
+
+    dil_prog = []
+    env = [0]
+
+    def gate(op, pos, M, C, extra=None, XY=None):
+        nonlocal T
+        act = active()
+        orig = [act[p_] for p_ in pos]
+        if C:  # unitary dilation [[M, X], [C, Y]] on the addressed modes + fresh environment modes
+            X, Y = XY
+            k_ = len(pos)
+            envm = [d + env[0] + i_ for i_ in range(k_)]
+            env[0] += k_
+            dil_prog.append({"modes": orig + envm, "M": jm([M[i_] + X[i_] for i_ in range(k_)] + [C[i_] + Y[i_] for i_ in range(k_)])})
+        else:
+            dil_prog.append({"modes": orig, "M": jm(M)})
+        Dm = common_den(M + C) if C else common_den(M)
+        model.append(("gate", list(pos), M, C, Dm))
+        ins = {"op": op, "modes": orig}
+        ins.update(extra or {"M": jm(M)})
+        program.append(ins)
+        E = ident(d)
+        for a_, i in enumerate(orig):
+            for b_, j in enumerate(orig):
+                E[i][j] = M[a_][b_]
+        T = mm(E, T)
+
+    def unitary(pos):
+        gate("U", pos, rand_unitary(rng, len(pos), real), [])
+
+    def loss():
+        a = len(active())
+        when = "after-ps" if psd else "before-ps"
+        if loss_kind == "uniform_all" or (loss_kind == "uniform_subset" and a < 2):
+            t, sg = rng.choice(TAUS[1:5])
+            gate("uniform_loss", list(range(a)), diag([t] * a), diag([sg] * a), {"tau": str(t)},
+                 XY=(diag([sg] * a), diag([-t] * a)))
+            feats.add("UniformLoss on all remaining modes, " + when)
+        elif loss_kind == "uniform_subset":
+            k = rng.randint(1, a - 1)
+            pos = sorted(rng.sample(range(a), k))
+            t, sg = rng.choice(TAUS[1:5])
+            gate("uniform_loss", pos, diag([t] * k), diag([sg] * k), {"tau": str(t)}, XY=(diag([sg] * k), diag([-t] * k)))
+            feats.add("UniformLoss on a subset, " + when)
+        elif loss_kind == "per_mode":
+            for p_ in rng.sample(range(a), min(a, rng.randint(1, 2))):
+                t, sg = rng.choice(TAUS[1:])
+                gate("loss", [p_], [[G(t)]], [[G(sg)]], {"tau": str(t)}, XY=([[G(sg)]], [[G(-t)]]))
+            feats.add("per-mode Loss, " + when)
+        else:
+            k = a if a <= 2 or rng.random() < 0.5 else rng.randint(2, a)
+            pos = rng.sample(range(a), k)
+            V, W = rand_unitary(rng, k, real), rand_unitary(rng, k, real)
+            tau = [rng.choice(TAUS) for _ in range(k)]
+            M = mm(mm(V, diag([t for t, _ in tau])), W)
+            C = mm(diag([sg for _, sg in tau]), W)
+            gate("lossy_interferometer", pos, M, C, XY=(mm(V, diag([sg for _, sg in tau])), diag([-t for t, _ in tau])))
+            feats.add("LossyInterferometer, " + when)
+
+    def postselect(count_min=1):
+        act = active()
+        p_ = rng.randrange(len(act))
+        budget = n - sum(psd.values())
+        c = max(0, min(budget, rng.randint(count_min, 2)))
+        model.append(("ps", [p_], [c]))
+        program.append({"op": "ps", "modes": [act[p_]], "counts": [c]})
+        psd[act[p_]] = c
+
+    unitary(list(range(d)))
+    if position == "before":
+        loss()
+    postselect()
+    if position == "between":
+        loss()
+        feats.add("loss between two post-selections")
+    if len(active()) >= 2 and rng.random() < 0.6:
+        unitary(rng.sample(range(len(active())), len(active())))
+    if position == "between" or (len(active()) >= 3 and rng.random() < 0.4):
+        if len(active()) >= 2:
+            postselect(1 if n - sum(psd.values()) >= 1 else 0)
+    if position == "after":
+        loss()
+    ovj, gram = None, None
+    if isinstance(ov, tuple):
+        gram = random_gram(rng, n, ov[1])
+        ovj = jm(gram)
+    elif ov is not None:
+        ovj = ov
+    explicit = rng.choice([None, n + 1, n + 1])
+    cutoff0 = explicit if explicit is not None else (max(4, n + 1) if ov is None else 4)
+    act, cutoff, queries, margs = pick_queries(rng, d, psd, cutoff0)
+    req = {"id": cid, "d": d, "s": list(s), "build": {"kind": "sequence", "program": program}, "overlap": ovj,
+           "cutoff": explicit, "ps": [], "ps_state": [], "queries": queries, "marginals": margs,
+           "prep": rng.choice(["number", "statevector"])}
+    steps = [[m_[1], m_[2]] for m_ in model if m_[0] == "ps"]
+    meta = {"id": cid, "d": d, "s": list(s), "loss": "nonuniform", "lossy_flag": True, "ov": ov, "gram": gram,
+            "steps": steps, "cutoff0": cutoff0, "queries": queries, "margs": margs, "psd": psd, "act": act,
+            "cutoff": cutoff, "build": "sequence", "T": T, "ps_mode": "program", "real": real,
+            "seq": model, "program": program, "features": sorted(feats),
+            "dilation": {"m_total": d + env[0], "s": list(s), "program": dil_prog},
+            "loss_kind": loss_kind, "position": position}
+    return req, meta
+
+
 def make_case(rng, cid, d, s, loss, ov, ps_kind, cutoff_kind="auto", ps_steps=None, real=False):
     """loss in none|uniform|nonuniform; ov in None | 'p/q' | ('gram', real?)."""
     n = sum(s)
@@ -184,9 +331,7 @@ def make_case(rng, cid, d, s, loss, ov, ps_kind, cutoff_kind="auto", ps_steps=No
     ovj = None
     gram = None
     if isinstance(ov, tuple):
-        pool = INTERNAL_REAL if ov[1] else INTERNAL
-        vecs = [rng.choice(pool) for _ in range(n)]
-        gram = gram_of(vecs)
+        gram = random_gram(rng, n, ov[1])
         ovj = jm(gram)
     elif ov is not None:
         ovj = ov
@@ -308,10 +453,10 @@ def enc_overlap(meta):
     return "(Uniform %s)" % cq(F(ov))
 
 
-def enc_case(meta, r):
+def enc_obs(meta, r):
     single = [g["ok"][0] if "ok" in g else float("nan") for g in r["single"]]
     tab, keys, norm, sv = r["table"], r["table_map"], r["norm"], r["state_vector"]
-    obs = "(Build_observed %d%%nat %d%%nat %s %s %s %s %s %s %s %s %s %s %s %s %s %s)" % (
+    return "(Build_observed %d%%nat %d%%nat %s %s %s %s %s %s %s %s %s %s %s %s %s %s %s)" % (
         r["d_active"], r["total"], cz(r["cutoff"]), nl(r["active"]), nl(r["ps_modes"]), clist(r["ps_photons"]),
         clist(single, fq),
         cz(st_of(tab)), clist(tab.get("ok", []), fq),
@@ -321,12 +466,37 @@ def enc_case(meta, r):
         clist(list(zip(meta["margs"], r["marginals"])), lambda mg: "(%s,%s,%s,%s)" % (
             nl(mg[0]), cz(st_of(mg[1])), zll([k for k, _ in mg[1].get("ok", [])]),
             clist([p for _, p in mg[1].get("ok", [])], fq))),
+        clist(r["T"], lambda row: clist(row, lambda a: "(%s,%s)" % (fq(a[0]), fq(a[1])))),
     )
+
+
+def enc_seq(meta, r):
+    def st(m_):
+        if m_[0] == "ps":
+            return "(SPost %s %s)" % (nl(m_[1]), clist(m_[2]))
+        _, pos, M, C, Dm = m_
+        return "(SGate %s %s %s %d)" % (nl(pos), zi_matrix(M, Dm), zi_matrix(C, Dm) if C else "[]", Dm)
+    return "(Build_seqcase %d%%nat %s %s %s %s %s %s)" % (
+        meta["d"], clist(meta["s"]), enc_overlap(meta), clist(meta["seq"], st), cz(meta["cutoff0"]),
+        "true" if meta["lossy_flag"] else "false", enc_obs(meta, r))
+
+
+def enc_case(meta, r):
+    obs = enc_obs(meta, r)
     return "(Build_case %s %d %d%%nat %d%%nat %s %s %s %s %s %s)" % (
         zi_matrix(meta["N"], meta["D"]), meta["D"], meta["d"], meta["nloss"], clist(meta["s"]),
         enc_overlap(meta),
         clist(meta["steps"], lambda st: "(%s,%s)" % (nl(st[0]), clist(st[1]))),
         cz(meta["cutoff0"]), "true" if meta["lossy_flag"] else "false", obs)
+
+
+def parse_ll_all(out):
+    """every `= [[..]; ..] : list (list Z)` answer of a file, in order"""
+    res = []
+    for m in re.finditer(r"=\s*(\[.*?\])\s*:\s*list \(list Z\)", out, re.S):
+        inner = m.group(1).replace("%Z", "").strip()[1:-1]
+        res.append([[int(x) for x in re.findall(r"-?\d+", grp)] for grp in re.findall(r"\[([^\[\]]*)\]", inner)])
+    return res
 
 
 def parse_ll(out):
@@ -349,7 +519,8 @@ CODES = {1: "generator: matrix is not an isometry (harness defect)", 2: "post-se
          10: "coefficient-extraction formula (repaired) differs from the dilation reference (model defect)",
          21: "get_particle_detection_probability (coefficient-extraction path)", 22: "fock_probabilities (coefficient-extraction path)",
          23: "norm = sum of fock_probabilities (coefficient-extraction path)",
-         31: "rows handed to the probability routine vs table keys (model)"}
+         31: "rows handed to the probability routine vs table keys (model)",
+         32: "interferometer / transmission matrix held by the state (_apply_matrix_on_modes)"}
 
 
 # ----------------------------------------------------------------------------- the check
@@ -407,7 +578,8 @@ def describe(meta):
             "overlap": "gram" if isinstance(meta["ov"], tuple) else meta["ov"],
             "postselection_steps(active numbering)": meta["steps"], "ps_via": meta["ps_mode"],
             "cutoff0": meta["cutoff0"], "T": jm(meta["T"]),
-            "gram": jm(meta["gram"]) if meta.get("gram") else None}
+            "gram": jm(meta["gram"]) if meta.get("gram") else None,
+            "program(original mode labels)": meta.get("program")}
 
 
 def load_corpus():
@@ -522,6 +694,88 @@ def run(chk: Check):
         add(d, s, loss, ov, "given", ps_steps=steps)
     n_ps = len(reqs) - n_corpus - n_feature
 
+    # ---- stream C: Gram-matrix overlap x inputs with two bunched modes (the input norm is a
+    # product of block permanents), generic cross-overlaps, every interface
+    if Tq:
+        bunched = []
+        for d in (2, 3, 4):
+            for s_ in compositions(4, d):
+                if sum(1 for x in s_ if x >= 2) >= 2:
+                    for loss in (("none", "uniform", "nonuniform") if d <= 3 else ("none",)):
+                        for real_g in (False, True):
+                            bunched.append((d, list(s_), loss, ("gram", real_g), rng.choice(["none", "one"])))
+    else:
+        bunched = [(3, [2, 2, 0], "none", ("gram", False), "none"),
+                   (3, [2, 0, 2], "uniform", ("gram", True), "one"),
+                   (2, [2, 2], "nonuniform", ("gram", False), "none")]
+    for (d, s_, loss, ov, psk) in bunched:
+        add(d, s_, loss, ov, psk, cutoff_kind="tight")
+    n_bunched = len(bunched)
+
+    # ---- stream D: instruction sequences -- every loss kind before / between / after
+    # post-selections that demand >= 1 photon
+    seq_specs = []
+    seq_inputs = [(3, [1, 1, 1]), (3, [2, 1, 0]), (3, [1, 0, 1]), (3, [0, 2, 1])]
+    if Tq:
+        seq_inputs += [(4, [1, 1, 1, 0]), (4, [2, 0, 1, 1]), (4, [1, 1, 1, 1]), (3, [2, 2, 0]), (2, [1, 1]), (2, [2, 1])]
+    i = 0
+    for rep in range(4 if Tq else 1):
+        for lk in LOSS_KINDS:
+            for pos in POSITIONS:
+                d, s_ = seq_inputs[i % len(seq_inputs)] if Tq else rng.choice(seq_inputs)
+                if pos == "between" and d < 3:
+                    d, s_ = seq_inputs[0]
+                ov = (None, None, None, "1/3", None, ("gram", False), "0", None)[i % 8] if Tq else (
+                    "1/3" if i % 4 == 3 else (("gram", False) if i == 5 else None))
+                if isinstance(ov, tuple) and sum(s_) > 3:
+                    ov = None
+                seq_specs.append((d, s_, ov, lk, pos))
+                i += 1
+    for (d, s_, ov, lk, pos) in seq_specs:
+        cid = len(reqs)
+        r, m = make_seq_case(rng, cid, d, s_, ov, lk, pos)
+        reqs.append(r)
+        metas.append(m)
+    n_seq = len(seq_specs)
+
+    # ---- which feature conjunctions does this run carry?  (recorded in the evidence; a
+    # required conjunction with no case is reported, never silently lost)
+    feat = {}
+
+    def bump(name):
+        feat[name] = feat.get(name, 0) + 1
+
+    for m in metas:
+        nb = sum(1 for x in m["s"] if x >= 2)
+        okind = "none" if m["ov"] is None else ("gram" if isinstance(m["ov"], tuple) else "uniform " + m["ov"])
+        if okind == "gram" and nb >= 2:
+            bump("Gram overlap x >=2 bunched input modes")
+            if m["steps"]:
+                bump("Gram overlap x >=2 bunched input modes x post-selected")
+            if m["lossy_flag"]:
+                bump("Gram overlap x >=2 bunched input modes x lossy")
+        if okind == "gram" and nb == 1:
+            bump("Gram overlap x 1 bunched input mode")
+        if okind.startswith("uniform") and nb >= 1:
+            bump("uniform overlap x bunched input")
+        if m["steps"] and m["lossy_flag"]:
+            bump("lossy x post-selected")
+        if len(m["steps"]) >= 2:
+            bump("two successive post-selection steps")
+        for f_ in m.get("features", []):
+            bump(f_)
+        if "seq" in m and any(a[0] == "gate" and not a[3] and k_ > 0 and any(b[0] == "ps" for b in m["seq"][:k_])
+                              for k_, a in enumerate(m["seq"])):
+            bump("unitary gate after a post-selection")
+    required = ["Gram overlap x >=2 bunched input modes", "loss between two post-selections",
+                "unitary gate after a post-selection"]
+    required += ["%s, %s" % (k_, w_) for k_ in ("UniformLoss on all remaining modes", "UniformLoss on a subset",
+                                                  "per-mode Loss", "LossyInterferometer") for w_ in ("before-ps", "after-ps")]
+    chk.coverage["feature_conjunctions"] = dict(sorted(feat.items()))
+    for f_ in required:
+        if feat.get(f_, 0) == 0:
+            corr_broken.append("generator lost coverage of the feature conjunction '%s'" % f_)
+
     dbg('impl: %d cases' % len(reqs))
     # dilation requests are derived from the generated cases (no implementation output needed)
     dil_reqs, dil_meta = [], []
@@ -532,13 +786,16 @@ def run(chk: Check):
             dil_reqs.append({"id": len(dil_reqs), "U": jm(dilation_unitary(m)), "s": m["s"]})
             dil_meta.append(m)
     book = make_book(rng, Tq)
+    # sequences of indistinguishable photons: the dilated circuit itself on PureFockSimulator
+    sdil_meta = [m for m in metas if "seq" in m and m["ov"] is None and m["dilation"]["m_total"] <= 8]
+    sdil_reqs = [dict(m["dilation"], id=i_) for i_, m in enumerate(sdil_meta)]
     if Tq:
         impl = run_impl_chunks(reqs)
-        rest = run_impl("c05_impl.py", {"dilations": dil_reqs, "book": book}, timeout=3000)
+        rest = run_impl("c05_impl.py", {"dilations": dil_reqs, "seq_dilations": sdil_reqs, "book": book}, timeout=3000)
     else:  # one interpreter: the numba kernels are compiled once
-        rest = run_impl("c05_impl.py", {"cases": reqs, "dilations": dil_reqs, "book": book}, timeout=3000)
+        rest = run_impl("c05_impl.py", {"cases": reqs, "dilations": dil_reqs, "seq_dilations": sdil_reqs, "book": book}, timeout=3000)
         impl = rest["cases"]
-    dil, bimpl = rest["dilations"], rest["book"]
+    dil, bimpl, sdil = rest["dilations"], rest["book"], rest["seq_dilations"]
     dbg('impl done')
 
     # ---- direct errors on the implementation (anything but NotImplementedCalculation)
@@ -639,9 +896,12 @@ Eval vm_compute in mismatches (fun '(s, x, r) => close (input_norm Q 0%%Q 1%%Q q
             load[i] += cost(mr) + 1
         parts = [p_ for p_ in parts if p_]
     for part in parts:
+        part = [mr for mr in part if "seq" not in mr[0]] + [mr for mr in part if "seq" in mr[0]]
         groups.append(part)
-        bodies.append(IMPORTS + "Definition cases : list case := [\n%s\n].\nEval vm_compute in run_cases cases.\n"
-                      % ";\n".join(enc_case(m, r) for m, r in part))
+        bodies.append(IMPORTS + "Definition cases : list case := [\n%s\n].\nDefinition seqcases : list seqcase := [\n%s\n].\n"
+                      "Eval vm_compute in run_cases cases.\nEval vm_compute in run_seqcases seqcases.\n"
+                      % (";\n".join(enc_case(m, r) for m, r in part if "seq" not in m),
+                         ";\n".join(enc_seq(m, r) for m, r in part if "seq" in m)))
     if not Tq and dil_bodies:  # dilation and bookkeeping comparisons share one file
         book_body = dil_bodies[0] + book_body[len(IMPORTS):]
         dil_bodies = []
@@ -659,14 +919,17 @@ Eval vm_compute in mismatches (fun '(s, x, r) => close (input_norm Q 0%%Q 1%%Q q
         dil_groups = [parse_coq_list(o)[0] for o in dil_outs]
     dbg('coq cases done')
     d2_hits = 0
+    d2_confirmed = set()  # cases on which the implementation equals the formula as coded
     nontrivial = set()
     refused = 0
     for part, o in zip(groups, outs):
-        res = parse_ll(o)
+        res = [x for grp in parse_ll_all(o) for x in grp]
         if len(res) != len(part):
             corr_broken.append("cases file returned %d results for %d cases" % (len(res), len(part)))
             continue
         for (m, r), codes in zip(part, res):
+            if set(codes) & {21, 22, 23} and not set(codes) & {3, 4, 6}:
+                d2_confirmed.add(m["id"])
             refused += sum(1 for g in [r["state_vector"]] + r["marginals"] if "refused" in g)
             if sum(m["s"]) >= 2 and m["d"] >= 2:
                 nontrivial.add((m["d"], tuple(m["s"]), m["loss"], str(m["ov"]), str(m["steps"])))
@@ -675,7 +938,7 @@ Eval vm_compute in mismatches (fun '(s, x, r) => close (input_norm Q 0%%Q 1%%Q q
                     d2_hits += 1
                     chk.violation(KEY_D2, "%s differs from the dilation (and from the loop-hafnian / tensor-permanent interfaces) and equals the coefficient-extraction formula with B_m = G*outer(v, conj v): complex non-uniform loss or complex Gram matrix" % CODES[c],
                                   dict(describe(m), interface=CODES[c]))
-                elif c in (1, 9, 10, 31):
+                elif c in (1, 9, 10, 31) and not (c == 1 and "seq" in m):
                     corr_broken.append("%s at case %s" % (CODES[c], json.dumps(describe(m))[:600]))
                 else:
                     corr_broken.append("model != implementation: %s at %s" % (CODES[c], json.dumps(describe(m))[:900]))
@@ -686,6 +949,12 @@ Eval vm_compute in mismatches (fun '(s, x, r) => close (input_norm Q 0%%Q 1%%Q q
                n_feature, len([1 for m, _ in usable if m["id"] >= n_corpus and m["id"] < n_corpus + n_feature and sum(m["s"]) >= 2 and m["d"] >= 2]),
                samples=sample, exhaustive=Tq,
                note="%d refusals with NotImplementedCalculation recorded as refused (state_vector / marginals), %d corpus cases" % (refused, n_corpus))
+    chk.stream("Gram-matrix overlap x two bunched input modes (generic cross-overlaps), every interface vs reference",
+               n_bunched, n_bunched, exhaustive=Tq, samples=[{"d": b_[0], "input": b_[1], "loss": b_[2]} for b_ in bunched[:2]])
+    chk.stream("instruction sequences: each loss kind before / between / after post-selections (>= 1 photon), reference computed from the sequence",
+               n_seq, n_seq, exhaustive=False,
+               samples=[{"d": q_[0], "input": q_[1], "loss": q_[3], "position": q_[4]} for q_ in seq_specs[:2]],
+               note="feature conjunction counts are in coverage.feature_conjunctions")
     chk.stream("every post-selection pattern (proper subsets x counts), one or two successive steps, vs reference",
                n_ps, n_ps, exhaustive=Tq,
                samples=[{"d": p[0], "input": p[1], "modes": p[2], "counts": p[3]} for p in pats[:2]])
@@ -718,7 +987,9 @@ Eval vm_compute in mismatches (fun '(s, x, r) => close (input_norm Q 0%%Q 1%%Q q
         single = [g["ok"][0] for g in r["single"] if "ok" in g]
         w = describe(m)
         ryser = m["lossy_flag"] or m["ov"] not in (None, "1")
-        d2_class = ryser and not m["real"] and (m["loss"] == "nonuniform" or (isinstance(m["ov"], tuple) and not m["ov"][1]))
+        # a failure below is attributed to the known conjugation defect only on a case where the
+        # tie has identified it (implementation == formula as coded, != dilation)
+        d2_class = ryser and m["id"] in d2_confirmed
         kk = (lambda k: KEY_D2) if d2_class else (lambda k: k)
         if any((not finite(p)) or p < -1e-9 for p in single):
             chk.violation(kk("C05:get_particle_detection_probability:negative-or-nan"), "single-outcome probability negative or not finite", w)
@@ -730,7 +1001,7 @@ Eval vm_compute in mismatches (fun '(s, x, r) => close (input_norm Q 0%%Q 1%%Q q
                 chk.violation(kk("C05:fock_probabilities:negative-or-nan"), "table entry negative or not finite", w)
             if len(tab) == len(single) and any(abs(a - b) > 1e-9 * (1 + abs(a)) for a, b in zip(tab, single)):
                 ryser = m["lossy_flag"] or m["ov"] is not None
-                key = KEY_D2 if ryser and (m["loss"] == "nonuniform" or isinstance(m["ov"], tuple)) and not m["real"] else "C05:fock_probabilities!=get_particle_detection_probability"
+                key = KEY_D2 if d2_class else "C05:fock_probabilities!=get_particle_detection_probability"
                 chk.violation(key, "fock_probabilities and get_particle_detection_probability disagree on the same outcome", w)
             consistent = len(tab) != len(single) or all(abs(a - b) <= 1e-9 * (1 + abs(a)) for a, b in zip(tab, single))
             total = sum(tab) if consistent else sum(single)  # an inconsistent table is reported above
@@ -763,6 +1034,30 @@ Eval vm_compute in mismatches (fun '(s, x, r) => close (input_norm Q 0%%Q 1%%Q q
                     if complete and abs(agg.get(tuple(k), 0.0) - p) > 1e-9:
                         chk.violation("C05:get_marginal_fock_probabilities!=sum-of-table", "marginal differs from the sum of single-outcome probabilities", dict(w, modes=mg, outcome=k))
                         break
+    by_id = {m["id"]: r for m, r in usable}
+    n_sdil = 0
+    for m, g in zip(sdil_meta, sdil):
+        r = by_id.get(m["id"])
+        if r is None:
+            continue
+        if "ok" not in g:
+            chk.violation("C05:sequence-dilation-on-PureFockSimulator:%s" % str(g.get("error", g))[:40], "the dilated sequence could not be simulated on PureFockSimulator", describe(m))
+            continue
+        n_sdil += 1
+        d = m["d"]
+        agg = {}
+        for k, p in g["ok"]["probs"]:
+            if all(k[mode] == c for mode, c in m["psd"].items()):
+                key = tuple(k[a_] for a_ in m["act"])
+                agg[key] = agg.get(key, 0.0) + p
+        for q, gs_ in zip(m["queries"], r["single"]):
+            if "ok" in gs_ and abs(gs_["ok"][0] - agg.get(tuple(q), 0.0)) > 1e-8:
+                chk.violation("C05:sequence:get_particle_detection_probability!=dilation-on-PureFockSimulator",
+                              "single-outcome probability of a loss / post-selection sequence differs from the same sequence with every loss replaced by a coupling to environment modes, run on PureFockSimulator",
+                              dict(describe(m), outcome=q, observed=gs_["ok"][0], expected_from_dilation=agg.get(tuple(q), 0.0)))
+                break
+    chk.stream("instruction sequences (indistinguishable photons): dilated circuit on PureFockSimulator vs get_particle_detection_probability",
+               n_sdil, n_sdil, kind="search", samples=[{"d": sdil_meta[0]["d"], "input": sdil_meta[0]["s"], "modes incl. environment": sdil_meta[0]["dilation"]["m_total"]}] if sdil_meta else [])
     chk.stream("mutual consistency of the interfaces on the implementation alone (search)", neval,
                len(nontrivial), kind="search",
                samples=[{"d": usable[0][0]["d"], "input": usable[0][0]["s"], "table_sum": sum(usable[0][1]["table"].get("ok", [0]))}] if usable else [])
